@@ -34,7 +34,7 @@ def run(tier, seed):
     scripts = set()
     for i in range(nruns):
         ncyc = rng.choice([2, 3, 4]) if tier == "quick" else rng.choice([2, 3, 5, 8])
-        lines = ["cycle %d %d %d" % (rng.choice([3, 10, 40]), int(rng.random() < 0.4), int(rng.random() < 0.3)) for _ in range(ncyc)]
+        lines = ["cycle %d %d %d" % (rng.choice([3, 10, 40]), rng.choice([0, 0, 1, 2, 3, 4]), int(rng.random() < 0.3)) for _ in range(ncyc)]
         scripts.add(tuple(lines))
         f = os.path.join(wd, "cy_%d.txt" % i)
         open(f, "w").write("\n".join(lines) + "\n")
@@ -50,7 +50,7 @@ def run(tier, seed):
             why = None
             if m.get("list") != "WARN_NOT_EXIST:0" or m.get("find_old") != "WARN_NOT_EXIST":
                 why = "a storage of the previous cycle is visible after init: " + ln
-            elif m.get("slots_free") != "4/4":
+            elif m.get("slots_free") != "4/4" or m.get("first_slot") != "0" or m.get("busy_after_init") != "0":
                 why = "not every session slot is free after init: " + ln
             elif int(m.get("epoch_advance", "0")) < 3:
                 why = "the epoch does not advance in this cycle (advance=%s in 40 periods)" % m.get("epoch_advance")
